@@ -13,6 +13,13 @@ mod test_utils;
 
 pub use data::*;
 
+/// Verification hook (only compiled with `--cfg kiki_verif`):
+/// exposes the tokenizer so that a harness can observe the full token vector.
+#[cfg(kiki_verif)]
+pub mod verif_hooks {
+    pub use crate::pipeline::tokenize::tokenize;
+}
+
 use pipeline::prelude::*;
 
 pub fn generate(src: &str) -> Result<RustSrc, KikiErr> {
